@@ -226,6 +226,19 @@ class Encoder(object):
             return out
         v = self.aux('pw')
         self.axioms.append(v > 0)
+        # functional consistency with the power atoms of OTHER bases: equal base and equal exponent -> equal value
+        # (keeps the solver from realising t**e and t_prev**e differently when t == t_prev)
+        zb, ze = self.tr(base), self.memo[expo]
+        n_ax = 0
+        for b2, gs in self.atom_groups.items():
+            if b2 is base or b2.op == 'const' or base.op == 'const':
+                continue
+            zb2 = self.tr(b2)
+            for e2, v2 in gs:
+                if n_ax > 40:
+                    break
+                self.axioms.append(z3.Implies(z3.And(zb == zb2, ze == self.memo[e2]), v == v2))
+                n_ax += 1
         groups.append((expo, v))
         return v
 
